@@ -675,6 +675,34 @@ fn gen_queries(n_active: usize, thorough: bool) -> (Vec<Query>, Value) {
 		}
 	}
 	dims.insert("pinned_id_x_single".into(), json!(qs.len() - n0));
+	// a page: lower (or upper) id bound × every limit × every other single criterion × both directions.
+	// The limit counts entries of the filtered set, not ids: a window derived from bound and limit is wrong
+	// as soon as a third criterion removes entries inside it.
+	let n0 = qs.len();
+	{
+		let mut others: Vec<Query> = vec![];
+		for f in (F_EXCL_CANC..NFIELDS).filter(|f| ![F_SORT, F_ORDER, F_LIMIT, F_MIN_ID, F_MAX_ID].contains(f)) {
+			product(&[f], n_active, &mut others);
+		}
+		for bound in [F_MIN_ID, F_MAX_ID] {
+			for v in 0..IDS.len() {
+				for l in 0..5usize {
+					for o in 0..=2usize {
+						for f in others.iter() {
+							let mut q = f.clone();
+							q.insert(bound, v);
+							q.insert(F_LIMIT, l);
+							if o > 0 {
+								q.insert(F_ORDER, o - 1);
+							}
+							qs.push(q);
+						}
+					}
+				}
+			}
+		}
+	}
+	dims.insert("id_bound_x_limit_x_order_x_single".into(), json!(qs.len() - n0));
 	if thorough {
 		let n0 = qs.len();
 		for i in 0..filt.len() {
